@@ -236,7 +236,7 @@ PROPS = {
         "streams": {
             "quick": [("default", "frombin", 1500), ("default", "acc", 1200), ("embedded", "frombin", 600),
                       ("embedded", "acc", 600), ("default", "fmt", 300), ("default", "store", 2),
-                      ("strict", "frombin", 600), ("strict", "acc", 200)],
+                      ("strict", "frombin", 600), ("strict", "acc", 200), ("default", "limits", 5)],
             "thorough": [("default", "frombin", 30000), ("default", "acc", 30000), ("embedded", "frombin", 10000),
                          ("embedded", "acc", 10000), ("naive", "acc", 10000), ("unsafe", "frombin", 10000),
                          ("unsafe", "acc", 10000), ("default-dev", "acc", 5000), ("default", "fmt", 10000),
@@ -253,7 +253,7 @@ PROPS = {
                      (T + "C04.encode_eq_spec", T + "C04"), (T + "C04.tables", T + "C04")],
         "spec_is_property": True,
         "streams": {
-            "quick": [(c, "store", 6) for c in ["default", "optdef", "embedded", "quarter", "hexsimd-only"]],
+            "quick": [(c, "store", 6) for c in ["default", "optdef", "embedded", "quarter", "hexsimd-only"]] + [("default", "limits", 5)],
             "thorough": [(c, "store", 200) for c in ["default", "optdef", "embedded", "quarter", "hexsimd-only",
                                                       "naive", "unsafe", "default-dev"]],
         },
